@@ -5,6 +5,7 @@ from ..translate import labelfns as tr
 from ..translate import hashmapsrc as hmsrc
 from ..translate import hashmapglue as hmglue
 from . import C09
+from . import c10_embed
 
 SPEC = dict(
     manifest=dict(
@@ -536,6 +537,7 @@ def src_search(ctx):
 def run(ctx):
     if ctx.search and src_search(ctx):
         return
+    c10_embed.embed_cases(ctx)      # dictionaries as FIELDS of a larger constructor (bits / references before and after, prunings)
     label_cases(ctx)
     tree_cases(ctx)
     overlong_cases(ctx)
@@ -564,6 +566,8 @@ def replay(ctx, payload):
             ctx.fail('label-reader:wrong', 'deserialize_hml does not return the label hashmap.tlb denotes', inp, got, want)
     elif inp.get('kind') == 'auge':
         auge_case(ctx, inp['bits'], [_tupled(c) for c in inp['cells']], inp['n'], inp.get('tag', 'replay'))
+    elif inp.get('kind') == 'embed':
+        c10_embed.replay_case(ctx, inp)
     elif inp.get('kind') == 'overlong':
         overlong_case(ctx, inp['n'], inp['ctor'], inp['length'], [tuple(p) for p in inp['path']], inp['ybits'], inp['seed_bits'], inp.get('tag', 'replay'))
 
